@@ -1,3 +1,5 @@
+//go:build verif_c18
+
 package main
 
 // C18 — list-valued settings: defined names (modelled), data validations,
